@@ -451,5 +451,5 @@ def readout_ops():
     q += [("q_stored", i) for i in range(NSLOT)]
     q += [("q_wf", k) for k in WFKEYS]
     q += [("q_rctx", r) for r in (1, 2, 3)]
-    q += [("q_hrange", 0, 100000, 2), ("q_irange", 0, 100000, 2), ("q_wfids", None), ("q_wfids", 0)]
+    q += [("q_hrange", 0, 100000, 2), ("q_irange", 0, 100000, 2), ("q_wfids", None)]
     return q
